@@ -180,6 +180,19 @@ def const_value(node, env=None):
     if isinstance(node, (ast.Tuple, ast.List)):
         vals = [const_value(e, env) for e in node.elts]
         return tuple(vals) if isinstance(node, ast.Tuple) else vals
+    if isinstance(node, ast.Subscript):
+        # b"\x00"[0], "abc"[1:], (1, 2)[0]: an element or a slice of a folded sequence
+        base = const_value(node.value, env)
+        if isinstance(base, (bytes, str, tuple, list)):
+            if isinstance(node.slice, ast.Slice):
+                lo = const_value(node.slice.lower, env) if node.slice.lower is not None else None
+                hi = const_value(node.slice.upper, env) if node.slice.upper is not None else None
+                st = const_value(node.slice.step, env) if node.slice.step is not None else None
+                return base[lo:hi:st]
+            i = const_value(node.slice, env)
+            if isinstance(i, int) and not isinstance(i, bool):
+                return base[i]
+        raise ValueError("subscript of a non-constant")
     if isinstance(node, ast.JoinedStr):
         # f"...{NAME}..." over folded text or integers, without conversion or format specification
         out = ""
@@ -290,6 +303,33 @@ class Repo:
                     foreign = normalize.new_methods(self.raw_tree("model.py"), "model.py", "_NumbersModel")
                 except Exception:  # noqa: BLE001
                     foreign = {}
+            # signatures of the model's methods (all of them): a call ``<x>._model.f(a=.., b=..)`` is read with its arguments in place
+            try:
+                # module-level functions of the package by name (unique names only): a call by keyword to one that is imported
+                # is read with its arguments in place
+                normalize.PACKAGE_FUNCTIONS.clear()
+                seen_ = {}
+                for m_rel in self.modules():
+                    try:
+                        for f_ in self.raw_tree(m_rel).body:
+                            if isinstance(f_, ast.FunctionDef):
+                                seen_.setdefault(f_.name, []).append(f_)
+                    except Exception:  # noqa: BLE001
+                        continue
+                for nm_, fs_ in seen_.items():
+                    if len(fs_) == 1:
+                        normalize.PACKAGE_FUNCTIONS[nm_] = fs_[0]
+            except Exception:  # noqa: BLE001
+                pass
+            try:
+                normalize.MODEL_SIGNATURES.clear()
+                for c_ in self.raw_tree("model.py").body:
+                    if isinstance(c_, ast.ClassDef) and c_.name == "_NumbersModel":
+                        for m_ in c_.body:
+                            if isinstance(m_, ast.FunctionDef):
+                                normalize.MODEL_SIGNATURES[m_.name] = m_
+            except Exception:  # noqa: BLE001
+                pass
             try:
                 t, report = normalize.normalize_module(rel, self.source(rel), base_env, imported_new, foreign)
             except RecursionError as e:  # pragma: no cover
